@@ -20,6 +20,7 @@ use byteorder::ReadBytesExt;
 
 use super::constants::*;
 use super::error::*;
+use super::functions::is_jsonb;
 use super::jentry::JEntry;
 use super::number::Number;
 use super::parser::parse_value;
@@ -54,6 +55,13 @@ use super::value::Value;
 ///
 ///    Decode `JSONB` Value from binary bytes.
 pub fn from_slice(buf: &[u8]) -> Result<Value<'_>, Error> {
+    // `JSON` text may start with a byte that also looks like a `JSONB` header
+    // (e.g. `12340123`), try the text parser first if it is not a `JSONB` prefix.
+    if !is_jsonb(buf) {
+        if let Ok(value) = parse_value(buf) {
+            return Ok(value);
+        }
+    }
     let mut decoder = Decoder::new(buf);
     match decoder.decode() {
         Ok(value) => Ok(value),
